@@ -835,6 +835,16 @@ impl ClientConductor {
         result
     }
 
+    /// Verification hook (compiled only with `--cfg unitedtraders_aeron_rs_verif`): the crate-private
+    /// `find_exclusive_publication`, reachable for a harness that drives the conductor without `Aeron`.
+    #[cfg(unitedtraders_aeron_rs_verif)]
+    pub fn find_exclusive_publication_for_verif(
+        &mut self,
+        registration_id: i64,
+    ) -> Result<Arc<Mutex<ExclusivePublication>>, AeronError> {
+        self.find_exclusive_publication(registration_id)
+    }
+
     pub fn release_exclusive_publication(&mut self, registration_id: i64) -> Result<(), AeronError> {
         log!(
             trace,
